@@ -21,6 +21,8 @@ pub enum Kind {
     I16,
     I32,
     I64,
+    U128,
+    I128,
     F64,
     Bool,
     Char,
@@ -51,6 +53,9 @@ impl Kind {
             k => k,
         }
     }
+    pub fn is_128(&self) -> bool {
+        matches!(self.base(), Kind::U128 | Kind::I128)
+    }
     pub fn is_stringy(&self) -> bool {
         matches!(self, Kind::String | Kind::Str | Kind::Cow)
     }
@@ -61,8 +66,8 @@ impl Kind {
 
 #[derive(Clone, Debug)]
 pub enum Val {
-    U(u64),
-    I(i64),
+    U(u128),
+    I(i128),
     F(f64),
     B(bool),
     C(char),
@@ -86,8 +91,8 @@ macro_rules! int_field {
     )*};
 }
 int_field! {
-    u8 => U8, U, u64; u16 => U16, U, u64; u32 => U32, U, u64; u64 => U64, U, u64;
-    i8 => I8, I, i64; i16 => I16, I, i64; i32 => I32, I, i64; i64 => I64, I, i64;
+    u8 => U8, U, u128; u16 => U16, U, u128; u32 => U32, U, u128; u64 => U64, U, u128; u128 => U128, U, u128;
+    i8 => I8, I, i128; i16 => I16, I, i128; i32 => I32, I, i128; i64 => I64, I, i128; i128 => I128, I, i128;
 }
 impl Field for f64 {
     fn kind() -> Kind {
@@ -315,6 +320,8 @@ shape!(ThreeIds { home_id: u32, room_id: u32, street_id: u32 });
 shape!(CharString { c: char, s: String });
 shape!(TwoStrs<'a> { a: &'a str, b: &'a str });
 shape!(Extremes { lo: i64, hi: u64, w: i32, t: u8 });
+shape!(Wide { big: u128, neg: i128 });
+shape!(WideMixed { id: u128, name: String, n: i128, k: u8 });
 // ---- query / form / json -----------------------------------------------------------------------
 shape!(OptU32 { a: Option<u32> });
 shape!(OptStringU8 { a: Option<String>, b: u8 });
@@ -357,6 +364,8 @@ pub fn table() -> Vec<Shape> {
         entry!(CharString, ALL),
         entry!(TwoStrs, ALL),
         entry!(Extremes, ALL),
+        entry!(Wide, ALL),
+        entry!(WideMixed, ALL),
         entry!(OptU32, QFJ),
         entry!(OptStringU8, QFJ),
         entry!(OptStrBool, QFJ),
